@@ -143,3 +143,20 @@ func WithoutTraps(c *Case, cfg *Config, res []CallResult) (*Case, int) {
 	d.Wat = Render(d.Seed, cfg, &d)
 	return &d, dropped
 }
+
+// BoundaryCell reports whether a call has at least one operand that is not a
+// generic positive/negative/ordinary value.
+func BoundaryCell(f *Func, call Call) bool {
+	raw := call.Raw()
+	for i := range raw {
+		if i >= len(f.Params) {
+			break
+		}
+		switch Label(f.Params[i], raw[i]) {
+		case "pos", "neg", "x":
+		default:
+			return true
+		}
+	}
+	return false
+}
